@@ -53,14 +53,14 @@ ANCHORS = [
     A("CcTestOrphan", P, "cache_cleanup", "elif provide_id not in provide_references and provide_id in provide_cache:", detail="provide_id"),
     A("CcPopOrphan", P, "cache_cleanup", "provide_cache.pop(provide_id)", detail="provide_id", nth=1),
     A("Diff", P, "managed_provide_cache", "new_reference_ids = all_reference_ids - all_reference_ids_before", detail="provide_id"),
-    A("RegEmpty", P, "register_provide_reference", "if not provide_cache:", detail="reference_id"),
+    A("RegEmpty", P, "register_provide_reference", "if not provide_", prefix=True, detail="reference_id"),
     A("RegAddAll", P, "register_provide_reference", "all_reference_ids.add(reference_id)", detail="reference_id"),
     A("RegHas", P, "register_provide_reference", "if provide_id not in provide_references:", detail="reference_id+'/'+provide_id"),
     A("RegNew", P, "register_provide_reference", "provide_references[provide_id] = set()", detail="reference_id+'/'+provide_id"),
     A("RegAdd", P, "register_provide_reference", "provide_references[provide_id].add(reference_id)", detail="reference_id+'/'+provide_id"),
     A("UnInAll", P, "unregister_provide_reference", "if reference_id not in all_reference_ids:", detail="reference_id"),
     A("UnRemAll", P, "unregister_provide_reference", "all_reference_ids.remove(reference_id)", detail="reference_id"),
-    A("UnKeys", P, "unregister_provide_reference", "for provide_id in list(provide_references.keys()):", detail="reference_id"),
+    A("UnKeys", P, "unregister_provide_reference", "for provide_id in", prefix=True, detail="reference_id"),
     A("UnIndex", P, "unregister_provide_reference", "if reference_id not in provide_references[provide_id]:", detail="reference_id+'/'+provide_id"),
     A("UnRem", P, "unregister_provide_reference", "provide_references[provide_id].remove(reference_id)", detail="reference_id+'/'+provide_id"),
     A("UnTestEmpty", P, "unregister_provide_reference", "if not provide_references[provide_id]:", detail="reference_id+'/'+provide_id"),
@@ -68,9 +68,9 @@ ANCHORS = [
     A("UnPopRefs", P, "unregister_provide_reference", "provide_references.pop(provide_id)", detail="reference_id+'/'+provide_id"),
     A("ProvPut", "provide.py", "set_provided_context_var", "provide_cache[provide_id] = payload", detail="provide_id"),
     A("Inject", "provide.py", "get_injected_context_var", "return provide_cache[cache_key]", detail="cache_key"),
-    A("CctxParent", "component.py", "_render_impl", "parent_comp_ctx = component_context_cache[parent_id]", detail="parent_id"),
-    A("CctxPut", "component.py", "_render_impl", "component_context_cache[render_id] = component_ctx", detail="render_id"),
-    A("CctxDel", "component.py", "on_component_rendered", "del component_context_cache[render_id]", prefix=True, detail="render_id"),
+    A("CctxParent", "component.py", "_render_impl", "parent_comp_ctx = component_context_cache[", prefix=True, detail="parent_id"),
+    A("CctxPut", "component.py", "_render_impl", "component_context_cache[", prefix=True, detail="render_id"),
+    A("CctxDel", "component.py", "on_component_rendered", "del component_context_cache[", prefix=True, detail="render_id"),
     A("PurgeCctx", "component.py", "_render_impl", "component_context_cache.pop(tree_id, None)", detail="tree_id"),
     A("PurgeRend", "component.py", "_render_impl", "component_renderer_cache.pop(tree_id, None)", detail="tree_id"),
     A("PurgeAttr", "component.py", "_render_impl", "child_component_attrs.pop(tree_id, None)", detail="tree_id"),
@@ -323,14 +323,14 @@ class Env:
         return {"resid": resid, "lru": lru, "ns": "component" in nsd, "med": med, "cap": cfg["cap"]}
 
     # -- one schedule --------------------------------------------------------------------------
-    def run_one(self, family, names, sched_list, keymap, timeout=15.0):
+    def run_one(self, family, names, sched_list, keymap, timeout=15.0, fine=False):
         cfg = family["cfg"]
         shared = {}
         if any(s["kind"] == "media" for s in family["threads"]):
             shared["cls"] = self.fresh_media_class(cfg.get("nested", False))
         self.reset(cfg, family)
         fns = {n: self.make_fn(family["threads"][NAMES.index(n)], shared) for n in names}
-        out, trace, aborted = sched.run_schedule(self.table, fns, names, sched_list, timeout=timeout)
+        out, trace, aborted = sched.run_schedule(self.table, fns, names, sched_list, timeout=timeout, fine=fine)
         res = {}
         for n in names:
             o = out.get(n, ("abort", None))
@@ -386,8 +386,8 @@ T_TWOKEYS = render("tk", [prov(1, [prov(2, [comp(3, inj="q")], key="q")])])
 T_MEDIA = {"kind": "media"}
 
 
-def fam(name, threads, cap=128, pre=(), ns=True, nested=False, budget=1.0):
-    return {"name": name, "threads": list(threads), "budget": budget,
+def fam(name, threads, cap=128, pre=(), ns=True, nested=False, budget=1.0, istep=1):
+    return {"name": name, "threads": list(threads), "budget": budget, "istep": istep,
             "cfg": {"cap": cap, "pre": [list(p) for p in pre], "ns": ns, "nested": nested}}
 
 
@@ -415,8 +415,8 @@ def families(tier):
     F = []
     # id-keyed tables only (template cache disabled): the class of theorem id_keyed_tables_isolated_partial
     F.append(fam("plain-plain-nocache", [T_PLAIN, T_PLAIN], cap=0))
-    F.append(fam("nest-pfail-nocache", [T_NEST, T_PFAIL], cap=0))
-    F.append(fam("nest-nest-nocache", [T_NEST, T_NEST], cap=0))
+    F.append(fam("nest-pfail-nocache", [T_NEST, T_PFAIL], cap=0, istep=2))
+    F.append(fam("nest-nest-nocache", [T_NEST, T_NEST], cap=0, istep=3))
     F.append(fam("noprov-plain-nocache", [T_NOPROV, T_PLAIN2], cap=0))
     # provide tables (cache disabled so that only the provide races are in play)
     F.append(fam("inj-inj-nocache", [T_INJ, T_INJ2], cap=0))
@@ -424,14 +424,14 @@ def families(tier):
     F.append(fam("plain-inj-nocache", [T_PLAIN, T_INJ], cap=0))
     F.append(fam("pfail-inj-nocache", [T_PFAIL, T_INJ], cap=0))
     F.append(fam("sib-failp-nocache", [T_SIB, T_FAILP], cap=0))
-    F.append(fam("faildeep-inj-nocache", [T_FAILDEEP, T_INJ], cap=0))
+    F.append(fam("faildeep-inj-nocache", [T_FAILDEEP, T_INJ], cap=0, istep=2))
     F.append(fam("twokeys-failp-nocache", [T_TWOKEYS, T_FAILP], cap=0))
     # template cache
     F.append(fam("lru1-hit-miss", [T_PLAIN, T_PLAIN2], cap=1, pre=[("pl", 1)]))
     F.append(fam("lru2-hit-hit", [T_PLAIN, T_PLAIN2], cap=2, pre=[("pl", 1), ("pm", 1)]))
     F.append(fam("lru2-miss-miss", [T_PLAIN, T_PLAIN2], cap=2))
     F.append(fam("lru1-same-miss", [T_PLAIN, T_PLAIN], cap=1))
-    F.append(fam("lru1-first-compile-nest", [T_NEST, T_PLAIN2], cap=1, pre=[("pm", 1)], ns=False, budget=0.5))
+    F.append(fam("lru1-first-compile-nest", [T_NEST, T_PLAIN2], cap=1, pre=[("pm", 1)], ns=False, budget=0.5, istep=3))
     # everything together (default cache size, all templates compiled)
     F.append(fam("inj-plain-cached", [T_INJ, T_PLAIN], cap=128, pre=all_pre([T_INJ, T_PLAIN]), budget=0.5))
     # lazy class data
@@ -580,8 +580,13 @@ def owner(idstr):
 
 def triggers(family, rec):
     """Root-cause classes whose trigger predicate holds on this (tasks, schedule) input, decided on the executed trace."""
-    tr = rec["trace"]
+    tr = [t for t in rec["trace"] if t[1] != "_"]      # fine mode: plain lines touch no shared state
     out = []
+    nxt_same = [None] * len(tr)          # index of the next event of the same thread
+    last = {}
+    for i in range(len(tr) - 1, -1, -1):
+        nxt_same[i] = last.get(tr[i][0])
+        last[tr[i][0]] = i
     # T1: CopyRefs(X,pid) ... RegAddAll(Y != X, r) [r not unregistered again] ... Diff(X,pid)
     t1 = False
     for q, (x, a, pid) in enumerate(tr):
@@ -622,7 +627,7 @@ def triggers(family, rec):
         elif a in ("CcPopCache", "CcPopOrphan", "UnPopCache"):
             live.discard(d.split("/")[-1])
         elif a == "RegEmpty":
-            nxt = next((tr[s] for s in range(p + 1, len(tr)) if tr[s][0] == x), None)
+            nxt = tr[nxt_same[p]] if nxt_same[p] is not None else None
             if nxt is not None and nxt[1] == "RegAddAll" and nxt[2] == d and not any(owner(k) == x for k in live):
                 t3 = True
     # (not a known class of its own on the current code: registering needlessly only EXPOSES the thread to T2; recorded
@@ -632,7 +637,7 @@ def triggers(family, rec):
     t4 = False
     inside = {}
     for p, (x, a, d) in enumerate(tr):
-        nxt = next((tr[s] for s in range(p + 1, len(tr)) if tr[s][0] == x), None)
+        nxt = tr[nxt_same[p]] if nxt_same[p] is not None else None
         if a in LRU_LABELS:
             if any(v for y, v in inside.items() if y != x):
                 t4 = True
@@ -668,8 +673,9 @@ def preemptions(trace, names):
 # ---------------------------------------------------------------------------------------------------------------
 # schedule enumeration (worker side)
 # ---------------------------------------------------------------------------------------------------------------
-def run_rec(e, family, names, segs, keymap):
-    rec = e.run_one(family, names, sched.expand(segs), keymap)
+def run_rec(e, family, names, segs, keymap, fine=False):
+    rec = e.run_one(family, names, sched.expand(segs), keymap, fine=fine)
+    rec["fine"] = fine
     rec["names"] = names
     rec["segs"] = [list(s) for s in segs]
     return rec
@@ -682,6 +688,41 @@ def solo_runs(e, family, keymap):
         rec = run_rec(e, family, [n], [], keymap)
         solo[n] = {"res": rec["res"][n], "trace": rec["trace"], "obs": rec["obs"], "aborted": rec["aborted"]}
     return solo
+
+
+_SOLO_CACHE = {}
+
+
+def digest(family, rec, keymap):
+    """Everything the driver needs about one executed schedule (computed in the worker)."""
+    key = family["name"]
+    if key not in _SOLO_CACHE:
+        _SOLO_CACHE[key] = job_solo(family)
+    solo, _, tts = _SOLO_CACHE[key]
+    ex = sched.compress([t[0] for t in rec["trace"]])
+    bad = interference(family, rec, solo)
+    trg = triggers(family, rec)
+    rec["rank"] = diff_rank(rec["trace"])
+    with_labels = bool(bad) or (sum(k for _, k in ex) + len(ex)) % 10 == 0
+    fine = rec.get("fine", False)
+    d = {"ex": [list(x) for x in ex], "bad": bad, "trg": trg, "npre": preemptions(rec["trace"], rec["names"]),
+         "f3": bool(rec.get("exposed_by_register_empty_check")), "res": rec["res"], "segs": rec["segs"], "fine": fine,
+         "term": None if fine else case_term(family, rec, keymap, tts, solo, label_codes_cached(), with_labels)}
+    if bad:
+        d["replay"] = {"family": family, "segs": rec["segs"], "fine": fine, "executed": d["ex"], "results": rec["res"],
+                       "solo": {n: solo[n]["res"] for n in rec["names"]}, "failed": bad,
+                       "residue": rec["obs"]["resid"], "lru": rec["obs"]["lru"], "media": rec["obs"]["med"], "triggers": trg}
+    return d
+
+
+_LBL = None
+
+
+def label_codes_cached():
+    global _LBL
+    if _LBL is None:
+        _LBL = label_codes()
+    return _LBL
 
 
 def job_enum2(args):
@@ -704,15 +745,16 @@ def job_enum2(args):
                     break      # X finished inside its second segment: larger k repeat this schedule
         if sum(1 for t in rec["trace"] if t[0] == y) < j:
             break              # Y finished inside its segment: larger j repeat this schedule
-    return out
+    return [digest(family, r, keymap) for r in out]
 
 
 def job_list(args):
-    family, seglists = args
+    family, seglists = args[:2]
+    fine = len(args) > 2 and args[2]
     e = env()
     keymap = family_keymap(family)
     names = [NAMES[k] for k in range(len(family["threads"]))]
-    return [run_rec(e, family, names, segs, keymap) for segs in seglists]
+    return [digest(family, run_rec(e, family, names, segs, keymap, fine=fine), keymap) for segs in seglists]
 
 
 def job_solo(family):
@@ -736,7 +778,7 @@ def plan_jobs(family, solo, tier, rng):
     pairs = [(x, y) for x in names for y in names if x != y]
     if len(names) == 2:
         for x, y in pairs:
-            for i in range(0, n[x] + slack):
+            for i in range(0, n[x] + slack, 1 if thorough else family.get("istep", 1)):
                 jobs.append(("enum", (family, x, y, i, n[y] + slack, None)))
         if thorough:
             for x, y in pairs:
@@ -772,6 +814,17 @@ def plan_jobs(family, solo, tier, rng):
         lists.append(segs)
     for c in range(0, len(lists), 40):
         jobs.append(("list", (family, lists[c:c + 40])))
+    # fine-grained random schedules: every source line of the traced files is a switch point (direct oracle only)
+    nfine = int((1500 if thorough else 120) * b)
+    lists = []
+    for _ in range(nfine):
+        segs = []
+        for _ in range(rng.randint(2, 14)):
+            segs.append((rng.choice(names), rng.choice([1, 2, 3, 5, 8, 13, 21, 34, 55, 89, 144])))
+        segs += [(x, 20 * BIG) for x in rng.sample(names, len(names))]
+        lists.append(segs)
+    for c in range(0, len(lists), 30):
+        jobs.append(("list", (family, lists[c:c + 30], True)))
     return jobs
 
 
@@ -792,20 +845,17 @@ def load_corpus():
     return out
 
 
-def classify(chk, family, rec, solo, stats, where):
-    bad = interference(family, rec, solo)
-    trg = triggers(family, rec)
+def classify(chk, family, d, stats, where):
+    bad, trg = d["bad"], d["trg"]
     if not bad:
-        return bad, trg
-    replay = {"family": family, "segs": rec["segs"], "executed": sched.compress([t[0] for t in rec["trace"]]),
-              "results": rec["res"], "solo": {n: solo[n]["res"] for n in rec["names"]}, "failed": bad,
-              "residue": rec["obs"]["resid"], "lru": rec["obs"]["lru"], "triggers": trg, "where": where}
+        return
+    replay = dict(d["replay"], where=where)
     if not trg:
         chk.fail("c07-interference-outside-known-classes", "; ".join(bad), replay)
         stats["outside"] += 1
-        return bad, trg
+        return
     stats["known:" + "+".join(trg)] += 1
-    if rec.get("exposed_by_register_empty_check"):
+    if d["f3"]:
         stats["interference-with-needless-registration(F3)"] += 1
     # attribute to one class: a class that holds alone is the cause; otherwise the first in causal order
     chk.fail(trg[0], "; ".join(bad), replay)
@@ -813,7 +863,6 @@ def classify(chk, family, rec, solo, stats, where):
         stats["holds:" + t] += 1
     if len(trg) == 1:
         stats["alone:" + trg[0]] += 1
-    return bad, trg
 
 
 def run(tier, seed):
@@ -831,57 +880,59 @@ def run(tier, seed):
     ctx = mp.get_context("fork")
     terms, meta = [], []
     seen, sampled = set(), set()
+    t_pool = time.time()
     with ctx.Pool(C.NCPU) as pool:
         solos = pool.map(job_solo, fams)
         # corpus first (direct oracle)
         corpus = load_corpus()
-        cjobs = [("list", (c["family"], [[tuple(s) for s in c["segs"]]])) for _, c in corpus]
-        csolo = pool.map(job_solo, [c["family"] for _, c in corpus])
+        cjobs = [("list", (c["family"], [[tuple(s) for s in c["segs"]]], bool(c.get("fine")))) for _, c in corpus]
         cres = pool.map(_dispatch, cjobs)
-        for (fname, c), (solo, keymap, tts), recs in zip(corpus, csolo, cres):
-            rec = recs[0]
-            bad, trg = classify(chk, c["family"], rec, solo, stats, "corpus/" + fname)
-            chk.count(("corpus", fname), bool(bad), kind="corpus")
+        for (fname, c), recs in zip(corpus, cres):
+            d = recs[0]
+            classify(chk, c["family"], d, stats, "corpus/" + fname)
+            chk.count(("corpus", fname), bool(d["bad"]), kind="corpus")
             exp = c.get("expect")
-            if exp and (not bad or exp not in trg):
+            if exp and (not d["bad"] or exp not in d["trg"]):
                 stats["corpus-not-reproduced:" + fname] += 1
         # enumeration + random
         alljobs = []
         for fi, (family, (solo, keymap, tts)) in enumerate(zip(fams, solos)):
             for j in plan_jobs(family, solo, tier, chk.rng):
                 alljobs.append((fi, j))
-        results = pool.map(_dispatch, [j for _, j in alljobs], chunksize=2)
+        results = pool.map(_dispatch, [j for _, j in alljobs], chunksize=4)
     for (fi, _), recs in zip(alljobs, results):
         family = fams[fi]
-        solo, keymap, tts = solos[fi]
-        for rec in recs:
-            ex = tuple(sched.compress([t[0] for t in rec["trace"]]))
+        for d in recs:
+            ex = tuple(tuple(x) for x in d["ex"])
             key = (fi, ex)
             if key in seen:
                 stats["duplicate-schedules"] += 1
                 continue
             seen.add(key)
-            bad, trg = classify(chk, family, rec, solo, stats, "enumeration")
-            npre = preemptions(rec["trace"], rec["names"])
-            kind = "%s/%s" % (family["name"], "isolated" if not bad else "+".join(trg) or "OUTSIDE")
+            classify(chk, family, d, stats, "enumeration")
+            bad, trg, npre = d["bad"], d["trg"], d["npre"]
+            kind = "%s%s/%s" % (family["name"], "/fine" if d["fine"] else "", "isolated" if not bad else "+".join(trg) or "OUTSIDE")
             sample = None
             if bad and "+".join(trg) not in sampled:
                 sampled.add("+".join(trg))
-                sample = {"family": family["name"], "schedule": [list(s) for s in ex], "results": rec["res"],
+                sample = {"family": family["name"], "schedule": d["ex"], "results": d["res"],
                           "triggers": trg, "interference": bad}
             chk.count((family["name"], ex), npre >= 1, kind=kind, sample=sample)
             stats["preemptions=%d" % min(npre, 4)] += 1
-            rec["rank"] = diff_rank(rec["trace"])
-            with_labels = bool(bad) or (len(terms) % 10 == 0)
-            terms.append(case_term(family, rec, keymap, tts, solo, lblc, with_labels))
-            meta.append((family, rec))
+            if d["fine"]:
+                stats["fine_grained_schedules"] += 1
+            else:
+                terms.append(d["term"])
+                meta.append((family, d))
+    stats["wall_impl_s"] = round(time.time() - t_pool)
+    t_coq = time.time()
     bad_idx = C.coq_eval_cases("C07", "sch", IMPORTS, "c07_case", "check_c07", terms, shard=400, timeout=900)
+    stats["wall_model_s"] = round(time.time() - t_coq)
+    stats["wall_proofs_s"] = round(chk.proof["wall_s"]) if chk.proof else -1
     for i in bad_idx[:20]:
-        family, rec = meta[i]
+        family, d = meta[i]
         chk.disagree("model prediction != implementation for a schedule",
-                     {"family": family, "segs": rec["segs"], "executed": sched.compress([t[0] for t in rec["trace"]]),
-                      "results": rec["res"], "residue": rec["obs"]["resid"], "lru": rec["obs"]["lru"], "media": rec["obs"]["med"],
-                      "trace": rec["trace"][:400]})
+                     {"family": family, "segs": d["segs"], "executed": d["ex"], "results": d["res"], "model_case": d["term"][:4000]})
     stats["model_disagreements"] = len(bad_idx)
     chk.extra["c07_stats"] = dict(stats)
     chk.extra["families"] = [f["name"] for f in fams]
@@ -917,7 +968,7 @@ def replay(path):
     keymap = family_keymap(family)
     solo = solo_runs(e, family, keymap)
     names = [NAMES[k] for k in range(len(family["threads"]))]
-    rec = run_rec(e, family, names, [tuple(s) for s in c["segs"]], keymap)
+    rec = run_rec(e, family, names, [tuple(s) for s in c["segs"]], keymap, fine=bool(c.get("fine")))
     print("solo:", {n: solo[n]["res"] for n in names})
     print("run: ", rec["res"])
     print("residue:", rec["obs"]["resid"], "lru:", rec["obs"]["lru"], "media:", rec["obs"]["med"])
